@@ -58,7 +58,7 @@ impl<A: AcceptableMasterList, C: Clock, F: Filter, R: Rng, S: PtpInstanceStateMu
                 let time_properties_ds = &mut state.time_properties_ds;
                 let path_trace_ds = &mut state.path_trace_ds;
 
-                current_ds.steps_removed = announce.steps_removed + 1;
+                current_ds.steps_removed = announce.steps_removed.saturating_add(1);
 
                 parent_ds.parent_port_identity = announce.header.source_port_identity;
                 parent_ds.grandmaster_identity = announce.grandmaster_identity;
@@ -190,7 +190,7 @@ impl<A, C: Clock, F: Filter, R: Rng, S: PtpInstanceStateMutex> Port<'_, InBmca, 
                 // a master-only PTP port should never end up in the slave state
                 debug_assert!(!self.config.master_only);
 
-                current_ds.steps_removed = announce_message.steps_removed + 1;
+                current_ds.steps_removed = announce_message.steps_removed.saturating_add(1);
 
                 parent_ds.parent_port_identity = announce_message.header.source_port_identity;
                 parent_ds.grandmaster_identity = announce_message.grandmaster_identity;
